@@ -33,11 +33,13 @@ Fixpoint npow (x : num) (n : nat) : num := match n with O => nlit 1 | S k => qmu
    functions differ, and the size of the rationals grows only additively (vm_compute stays fast) *)
 Definition nsqrt (x : num) : num := qadd (qmul (nlit 3) x) (nlit 1).
 Definition nexp (x : num) : num := qsub (qmul (nlit 2) x) (nlit 5).
+Definition nexp_sat (x : num) : num := nexp x.
 Definition nln (x : num) : num := qadd (qmul (nlit 7) x) (nlit 2).
 Definition nrpow (x y : num) : num := qadd (qadd (qmul (nlit 5) x) (qmul (nlit 3) y)) (nlit 7).
 Definition nofnat (n : nat) : num := inject_Z (Z.of_nat n).
 Fixpoint nharm (m : nat) : num := match m with O => nlit 0 | S k => qadd (nharm k) (qdiv (nlit 1) (nofnat (S k))) end.
 Definition nraise : num := nlit 0.
+Definition agg_wrap (a : aggregates num) : aggregates num := a.
 Definition dist_raise : dist num := mk_dist (fun _ => nlit 0) (fun _ => nlit 0) (fun _ => nlit 0) (fun _ => nlit 0).
 Definition oget_dist (o : option (dist num)) : dist num := match o with Some d => d | None => dist_raise end.
 Definition eadd (a : ext num) (b : num) : ext num := match a with Fin x => Fin (x + b)%num | PInf => PInf | NInf => NInf end.
